@@ -37,7 +37,7 @@ META = {
                  "assertion-verification observers)",
     "design_ref": "DESIGN.md §3 C31",
     "rule": "case = corpus module (or the hand-written looping module) + session seed + 2..4 test cases given as (factory seed, "
-            "size, typed?) + indices of assertions to falsify; every test case = 3 executions x 2 observer phases; non-trivial = at "
+            "size, typed?, unused variables removed?) + indices of assertions to falsify; every test case = 3 executions x 2 observer phases; non-trivial = at "
             "least 2 test cases, one of which runs SUT code, and at least one non-empty assertion trace; distinct by module + seeds",
     "assumptions": ["the in-process TestCaseExecutor is the reference (its own isolation is C30's subject)",
                     "corpus modules are deterministic and keep no module-level state (vf/corpus rule)",
@@ -98,6 +98,9 @@ def strategy(ctx) -> st.SearchStrategy:
         "module": st.sampled_from(MODULES),
         "seed": st.integers(0, 2**31 - 1),
         "typed": st.booleans(),
+        # run the test cases through TestCase.remove_unused_variables() first, as post-processing / export do: statements
+        # whose variable is never read lose their binding, so a raising last statement binds nothing
+        "strip": st.booleans(),
         "tests": st.lists(test, min_size=2, max_size=4),
         "corrupt": st.lists(st.tuples(st.integers(0, 3), st.integers(0, 40)).map(list), max_size=4),
     })
@@ -209,6 +212,9 @@ def evaluate(case: dict[str, Any]) -> Outcome:
                 expect_timeout = [any(st_ == {"fn": "spin", "args": [7]} for st_ in steps) for steps in case["hand"]]
             else:
                 tests = [s.random_test_case(t["seed"], t["size"]) for t in case["tests"]]
+                if case.get("strip"):
+                    for t in tests:
+                        t.remove_unused_variables()
                 expect_timeout = [False] * len(tests)
             tests = [t for t in tests if t.size() > 0]
             expect_timeout = expect_timeout[:len(tests)]
@@ -267,6 +273,11 @@ def evaluate(case: dict[str, Any]) -> Outcome:
             out.evaluations = 6 * len(tests)
             out.labels.append("module:" + ("loop" if looping else case["module"]))
             out.labels.append("typed" if case.get("typed") else "untyped")
+            if case.get("strip"):
+                out.labels.append("class:unused-variables-removed")
+                if any(o["exceptions"] and t.get_statement(int(min(o["exceptions"], key=int))).bound_variable is None
+                       for t, o in zip(tests, ref)):
+                    out.labels.append("class:raising-statement-binds-nothing")
             for o in ref:
                 out.labels.append("test:raises" if o["exceptions"] else ("test:timeout" if o["timeout"] else "test:clean"))
             if n_assert:
